@@ -213,6 +213,50 @@ def generate(repo: str) -> str:
             "def strSpecs : List (String × String × String × Bool) := ["]
     specs = [(b, e, s, fl) for b, _, _, ss in blocks for e, s, fl in ss]
     out.append(",\n".join(f"  ({lean_str(b)}, {lean_str(e)}, {lean_str(s)}, {'true' if fl else 'false'})" for b, e, s, fl in specs) + "]")
+    # read-out accessor formulas (C15): normalised source text of the defining expressions
+    acc = []
+
+    def ret_expr(cls, fn):
+        f = _find(model, cls, fn)
+        if f is None:
+            return "missing"
+        rets = [n for n in ast.walk(f) if isinstance(n, ast.Return) and n.value is not None]
+        return ast.unparse(rets[-1].value) if rets else "missing"
+
+    def assigns_to_key(cls, fn, dname):
+        f = _find(model, cls, fn)
+        res = []
+        if f is None:
+            return res
+        for n in ast.walk(f):
+            if isinstance(n, ast.Assign) and len(n.targets) == 1 and isinstance(n.targets[0], ast.Subscript) \
+                    and ast.unparse(n.targets[0].value) == dname and isinstance(n.targets[0].slice, ast.Constant):
+                res.append((n.targets[0].slice.value, ast.unparse(n.value)))
+        return res
+    acc.append(("get_T", ret_expr("Model", "get_T")))
+    acc.append(("get_PH", ret_expr("Model", "get_PH")))
+    acc.append(("get_A", ret_expr("Model", "get_A")))
+    for k, v in assigns_to_key("SolvedModel", "get_data", "params"):
+        if isinstance(k, str):
+            acc.append((f"get_data.{k}", v))
+    go = _find(model, "Model", "get_output")
+    if go is not None:
+        for n in ast.walk(go):
+            if isinstance(n, ast.Assign) and len(n.targets) == 1 and ast.unparse(n.targets[0]) in ("d", "out_dic[pin.name]", "u[i]"):
+                acc.append((f"get_output.{ast.unparse(n.targets[0])}", ast.unparse(n.value)))
+    gf = _find(model, "SolvedModel", "get_full_output")
+    if gf is not None:
+        for n in ast.walk(gf):
+            if isinstance(n, ast.Assign) and len(n.targets) == 1 and ast.unparse(n.targets[0]) in ("output", "params[pin.name]", "u[i]"):
+                acc.append((f"get_full_output.{ast.unparse(n.targets[0])}", ast.unparse(n.value)))
+    gd = _find(model, "SolvedModel", "get_full_data")
+    if gd is not None:
+        for n in ast.walk(gd):
+            if isinstance(n, ast.Assign) and len(n.targets) == 1 and ast.unparse(n.targets[0]) == "params[p1, p2]":
+                acc.append(("get_full_data.params[p1, p2]", ast.unparse(n.value)))
+    out += ["", "/-- read-out accessor formulas as written in the source (normalised with ast.unparse) -/",
+            "def accessors : List (String × String) := ["]
+    out.append(",\n".join(f"  ({lean_str(k)}, {lean_str(v)})" for k, v in acc) + "]")
     out += ["", "end Generated", ""]
     return "\n".join(out)
 
